@@ -280,3 +280,36 @@ def oracle(c, out):
 
 def neighbors(c, rng):
     return []
+
+
+# ======================================================================================================================
+# Extension E3 (keep at the END of this file): "a stream with no sessions left is eventually removed, an input that
+# stops sending is disconnected by the idle check" at the SERVER level - a real ServerManager with its tick, op c03.srv,
+# generator and oracle in gen/c03tick.py.  The functions above are wrapped, not changed.
+from gen import c03tick as _e3
+
+ASSUMPTIONS = [a for a in ASSUMPTIONS if not a.startswith("removal of empty groups, idle-input disposal")] + [
+    "goroutine / descriptor baselines are runtime behaviour, not part of the model (partial)",
+    "c03.srv (removal of empty groups and the idle check on a real ServerManager): RTSP sessions count RTP payload only, which the harness never "
+    "sends; PS publishers have no timeout (timeout_ms = 0); the traffic an event causes moves a byte counter by an unspecified positive amount",
+]
+RULE += ("; c03.srv: event histories over 1-3 stream names through a real ServerManager and its tick, with exactly driven byte counters and "
+         "ticks at, just before and just after multiples of 120")
+_e3_gen_cases, _e3_nontrivial, _e3_oracle, _e3_neighbors = gen_cases, nontrivial, oracle, neighbors
+
+
+def gen_cases(tier, rng):
+    yield from _e3_gen_cases(tier, rng)
+    yield from _e3.gen_cases(tier, rng)
+
+
+def nontrivial(c, out):
+    return _e3.nontrivial(c, out) if c.line.startswith("c03.srv") else _e3_nontrivial(c, out)
+
+
+def oracle(c, out):
+    return _e3.oracle(c, out) if c.line.startswith("c03.srv") else _e3_oracle(c, out)
+
+
+def neighbors(c, rng):
+    yield from (_e3.neighbors(c, rng) if c.line.startswith("c03.srv") else _e3_neighbors(c, rng))
